@@ -17,6 +17,7 @@ import os
 
 import vlib
 import c17_hist as H
+import c17_tie
 
 FINISH = dict(level="proof",
               rule="one case = one history (3-8 operations on a private world: runs of the real command line tool, "
@@ -285,6 +286,13 @@ def run(ctx):
     ctx.coverage["rehash_in_source"] = H.rehash_in_source()
     if not hook:
         ctx.log("crash-at-byte hook not present in this tree: killed-writer histories are replaced by planted truncations")
+    # translator tie (T): regenerate the protocol from the current source and prove it equal to the model (in the background, while
+    # the histories run), then replay the recorded histories with the regenerated code
+    c17_tie.run(ctx, lambda: histories(ctx, hook), H.NCH)
+
+
+def histories(ctx, hook):
+    """Execute and judge the histories; returns them as batches (tag, specs, worlds) for the cross-check of the translator tie."""
     try:
         specs = [fix_plants(s) for s in core_histories(ctx, hook)]
         worlds = execute(ctx, specs)
@@ -301,6 +309,7 @@ def run(ctx):
         cleanup(ctx)
     ctx.coverage["histories"] = len(specs) + len(specs2)
     ctx.coverage["history_kinds"] = sorted({o[0] for s in specs + specs2 for o in s["ops"]})
+    return [("core", specs, worlds), ("random", specs2, worlds2)]
 
 
 def cleanup(ctx):
